@@ -12,11 +12,13 @@ from .assemble import assemble, TemplateError
 from .extract import LostAnchor
 
 VERIF = os.path.dirname(os.path.dirname(os.path.abspath(__file__)))
-BUILD = os.path.join(VERIF, 'build')
+BUILD = os.environ.get('VERIF_BUILD_DIR') or os.path.join(VERIF, 'build')   # override: parallel regression runs (tools/regress_par.py)
 
 # Verus messages that are *verification* failures (an obligation that could not be discharged)
 SEMANTIC = [
     (re.compile(r'postcondition not satisfied'), 'postcondition'),
+    (re.compile(r'unable to prove post-?condition of closure'), 'postcondition'),
+    (re.compile(r'unable to prove pre-?condition of closure'), 'precondition'),
     (re.compile(r'precondition not satisfied'), 'precondition'),
     (re.compile(r'invariant not satisfied at end of loop body'), 'loop-invariant-preserved'),
     (re.compile(r'invariant not satisfied before loop'), 'loop-invariant-entry'),
